@@ -41,7 +41,7 @@ CHECKS = {
         "level": "exploration",
         "technique": 'property-based testing: generated Boolean expressions and solver histories with a one-sided validity oracle (exhaustive evaluation / Z3 / brute-force model set)',
         "text": 'Generated-input search: whenever is_true/is_false (module functions, Bool methods, and every exact solver frontend, with and without extras, also on solvers derived by branch/blank_copy/split/combine/merge) answers True, the claim is checked against all assignments of the written tree, a Z3 validity query (incl. FP), or the brute-force model set of the solver. False answers are never checked.',
-        "note": 'Brute-force model-set reference is exact only within 17 variable bits (4 four-bit variables + 1 Boolean); latitude of DESIGN 3.2 (eval may return any feasible subset of the right size; empty result or UnsatError when no value exists; semantically constant queries answered without the solver).',
+        "note": 'Brute-force model-set reference is exact only within 17 variable bits (4 four-bit variables + 1 Boolean); latitude of DESIGN 3.2 (eval may return any feasible subset of the right size; empty result or UnsatError when no value exists; semantically constant queries answered without the solver). One open known finding (C10-concrete-fp-rounding: concrete FP folding ignores the rounding mode; identified by a per-node predicate, see DESIGN.md section 11).',
     },
     "C11": {
         "level": "exploration",
